@@ -56,20 +56,7 @@ class Lazy:
         return out
 
 
-_CTX = []
-
-
-def ctx14():
-    """Private context: the default snax-opt context plus snax_xdma, registered the way snaxc/tools/config_parser.py does it."""
-    if not _CTX:
-        from snaxc.accelerators.snax_xdma import SNAXXDMAAccelerator
-        from vlib.ctx import fresh_ctx
-
-        c = fresh_ctx()
-        acc = SNAXXDMAAccelerator()
-        c.register_accelerator(SNAXXDMAAccelerator.name, lambda: acc)
-        _CTX.append(c)
-    return _CTX[0]
+from vlib.ctx_multicore import xdma_ctx as ctx14  # noqa: E402  (private context with snax_xdma registered)
 
 
 def keep(kind, c, n):
